@@ -24,7 +24,10 @@ for sid in ids:
     subprocess.run(["git", "-C", "/repo", "archive", "--format=tar", "HEAD", "streamflow"], stdout=open(scratch + "/s.tar", "wb"), check=True)
     subprocess.run(["tar", "-xf", "s.tar"], cwd=scratch, check=True)
     os.remove(scratch + "/s.tar")
-    r = subprocess.run(["patch", "-p1", "-s", "-i", os.path.join(d, "patch.diff")], cwd=scratch, capture_output=True, text=True)
+    # patch.diff is the author's change against the pinned commit; patch_rebased.diff (when present) is the
+    # same change carried over the `fix:` commits that touched the same lines of /repo
+    pf = os.path.join(d, "patch_rebased.diff") if os.path.exists(os.path.join(d, "patch_rebased.diff")) else os.path.join(d, "patch.diff")
+    r = subprocess.run(["patch", "-p1", "-s", "--no-backup-if-mismatch", "-i", pf], cwd=scratch, capture_output=True, text=True)
     if r.returncode != 0:
         print(sid, "PATCH FAILED", r.stdout, r.stderr)
         results[sid] = {"error": "patch failed"}
